@@ -78,12 +78,21 @@ pub fn managed_race(prop: &'static str, seed: u64, close: bool) -> RaceOut {
     // bound "waiting <= callers inside get()" is then tight enough to see an off-by-one
     let few = prop == "C11" && rng.chance(1, 2);
     let dense = dense && !few;
-    let threads = if small { 3 } else if few { rng.range(1, 2) as usize } else if dense { rng.range(12, 40) as usize } else { rng.range(3, 12) as usize };
-    let iters = if small { rng.range(3, 8) as usize } else if few { rng.range(5000, 20000) as usize } else { rng.range(200, 1500) as usize };
-    let start_max = rng.range(1, 4) as usize;
-    let resizes: Vec<usize> = (0..rng.range(4, if cfg!(miri) { 6 } else { 40 })).map(|_| rng.usize_below(6)).collect();
+    // "storm": few getters, free permits most of the time, and hundreds of back-to-back resizes - the regime
+    // in which a shrink that reads the free permits and retires them in two steps can be overtaken
+    let storm = !close && !few && !small && rng.chance(1, 3);
+    let dense = dense && !storm;
+    let threads = if small { 3 } else if few { rng.range(1, 2) as usize } else if storm { rng.range(1, 4) as usize } else if dense { rng.range(12, 40) as usize } else { rng.range(3, 12) as usize };
+    let iters = if small { rng.range(3, 8) as usize } else if few { rng.range(5000, 20000) as usize } else if storm { 1_000_000 } else { rng.range(200, 1500) as usize };
+    let start_max = if storm { rng.range(3, 6) as usize } else { rng.range(1, 4) as usize };
+    let resizes: Vec<usize> = if storm {
+        let n = rng.range(200, 600);
+        (0..n).map(|k| if k % 2 == 0 { rng.usize_below(4) } else { rng.range(3, 6) as usize }).collect()
+    } else {
+        (0..rng.range(4, if cfg!(miri) { 6 } else { 40 })).map(|_| rng.usize_below(6)).collect()
+    };
     let final_max = *resizes.last().unwrap();
-    let delay = if small { rng.below(30) } else { rng.below(if dense { 40_000 } else { 3000 }) };
+    let delay = if small { rng.below(30) } else if storm { rng.below(300) } else { rng.below(if dense { 40_000 } else { 3000 }) };
     let cnt = Arc::new(Cnt::default());
     let pool: Pool<LMgr> = Pool::builder(LMgr(cnt.clone())).max_size(start_max).build().unwrap();
     let stop = Arc::new(AtomicBool::new(false));
@@ -161,7 +170,7 @@ pub fn managed_race(prop: &'static str, seed: u64, close: bool) -> RaceOut {
     } else {
         for r in &resizes {
             pool.resize(*r);
-            spin(rng.below(400));
+            spin(rng.below(if storm { 30 } else { 400 }));
         }
     }
     if !few {
